@@ -85,7 +85,7 @@ Proof.
   - unfold subscribe in E. destruct (session_of st c) as [[k s]|]; [|discriminate].
     destruct (negb _); [discriminate|]. destruct (Nat.leb _ _); discriminate.
   - unfold unsubscribe in E. destruct (session_of st c) as [[k s]|]; discriminate.
-  - rewrite publish_unfold in E. destruct (negb _ && _); [discriminate|]. destruct (pub_err st c m); discriminate.
+  - rewrite publish_unfold in E. destruct (pub_stuck _ _ _); [destruct (own_refused st c m); discriminate|]. destruct (pub_err st c m); discriminate.
   - unfold dequeue in E. destruct (session_of st c) as [[k s]|]; [|discriminate].
     destruct t; [destruct (s_tq s)|destruct (s_sq s)]; discriminate.
   - unfold terminate in E. destruct (alookup N.eqb c (st_cid st)) as [id|]; [|discriminate].
@@ -95,7 +95,7 @@ Qed.
 
 Theorem handover_along cap ops : holds_along handover_ok cap ops.
 Proof.
-  apply holds_along_intro. intros st o _. pose proof (step_handover_ok st o) as X.
+  apply holds_along_intro. intros st o _ _. pose proof (step_handover_ok st o) as X.
   destruct (step st o). intros _; exact X.
 Qed.
 
@@ -119,7 +119,7 @@ Proof.
   - unfold subscribe. destruct (session_of st c) as [[k s]|]; [|exact W]. destruct (negb _); [exact W|].
     destruct k; exact W.
   - unfold unsubscribe. destruct (session_of st c) as [[k s]|]; [|exact W]. destruct k; exact W.
-  - rewrite publish_unfold. destruct (negb _ && _); exact W.
+  - rewrite publish_unfold. destruct (pub_stuck _ _ _); exact W.
   - unfold dequeue. destruct (session_of st c) as [[k s]|]; [|exact W].
     destruct t; [destruct (s_tq s)|destruct (s_sq s)]; try exact W; destruct k; exact W.
   - unfold terminate. destruct (alookup N.eqb c (st_cid st)) as [id|]; [|exact W].
